@@ -209,11 +209,19 @@ def run(tier, seed):
             bad.append(dict(failed=f, case=dict(mass=c["mass"], v=c["v"], dir=c["dir"], energies=c["en"], state=c["state"], target=c["target"])))
     res.count("hop_to_it/accepted", nacc); res.count("hop_to_it/frustrated", nrej)
     collapse_probe(res, rng, tier, bad)
+    # ---- the collapse decision itself: gamma_collapse() and the loop in surface_hopping against Model/Afssh.gamma_collapse / collapse_scan
+    import pcoll
+    gcs, gmeta, scs, smeta = pcoll.collect(res, rng, 60 if tier == "quick" else 2000, bad)
+    fg, eg = run_case_check("C11g", PRELUDE, "caseG", "chkG", gcs, per_file=300)
+    fs, es = run_case_check("C11s", PRELUDE, "caseS", "chkS", scs, per_file=300)
+    for e in eg + es:
+        res.violation("model evaluation failed (coqc)", dict(kind="coqc-error", log=e, no_failing_input_found=True))
+    coll_corr = [dict(gmeta[i], what="gamma_collapse") for i in fg[:3]] + [dict(smeta[i], what="collapse loop") for i in fs[:3]]
     failing, errors = run_case_check("C11", PRELUDE, "case11", "chk11", cases, per_file=12, timeout=1500)
     for e in errors:
         res.violation("model evaluation failed (coqc)", dict(kind="coqc-error", log=e, no_failing_input_found=True))
-    res.traces_validated = len(cases) - len(failing)
-    corr = [meta[i] for i in failing[:4]]
+    res.traces_validated = len(cases) - len(failing) + len(gcs) - len(fg) + len(scs) - len(fs)
+    corr = [meta[i] for i in failing[:4]] + coll_corr
     if bad:
         res.violation("implementation violates: " + bad[0]["failed"], dict(kind="oracle", failing_inputs=bad[:4], correspondence_failures=corr))
     elif corr:
@@ -221,5 +229,6 @@ def run(tier, seed):
                       dict(kind="correspondence", correspondence="Run/R11.chk11: delR_exp/delR_rk4/delP_exp/delP_rk4/hop_shift vs advance_delR/advance_delP/hop_update", failing_inputs=corr, no_failing_input_found=True))
     return finish(res, thm,
                   rule="random Hermitian moments, random (pure coherent / mixed) rho, random stub electronics with 2..8 states and 1..3 dimensions, both moment integrators: advance_delR / advance_delP replayed through the model with numpy's eigh as oracle; "
-                       "hop_update to every target index (below and above the source); exp vs rk4 at dt 0.4/0.2/0.1; forced collapses on two-state models with both trace back-ends; non-trivial = distinct case",
-                  assumptions=["the model uses (1/m)*delP where the code uses delP/m (one rounding)", "collapse is forced by raising gamma at two chosen steps (the collapse probability formula itself is not part of the property)"])
+                       "hop_update to every target index (below and above the source); exp vs rk4 at dt 0.4/0.2/0.1; forced collapses on two-state models with both trace back-ends; real A-FSSH runs on 1-D/2-D/5-D models (Hermiticity at every step); hop_to_it with accepted and frustrated attempts; "
+                       "gamma_collapse() on random moments/forces (incl. equal diagonal momenta and zero position differences) and the collapse loop of surface_hopping with rates placed on either side of the numbers drawn from a twin generator; non-trivial = distinct case",
+                  assumptions=["the model uses (1/m)*delP where the code uses delP/m (one rounding)", "in the run-level probe the collapse is forced by raising gamma at two chosen steps; the rate formula and the decision loop are tied to the model separately (chkG, chkS)"])
